@@ -46,12 +46,13 @@ theorem C13_decode_encode_is_install (c : Compiled) (inst : Installed) (hinst : 
     (hlen : c.methods.length = c.outs.length)
     (har : ∀ m ∈ c.methods, 1 ≤ m.vp.length)
     (hstr : ∀ mo ∈ c.methods.zip c.outs, mo.2.strides.length = mo.1.vp.length - 1)
+    (hnx : ∀ mo ∈ c.methods.zip c.outs, mo.2.nexts.length = mo.1.specs.length)
     (htab : ∀ mo ∈ c.methods.zip c.outs, TableGood mo)
     (hgood : ∀ row ∈ c.vtbl, ∀ e ∈ row, EntryGood c (dtStarts (c.methods.zip c.outs) 0) e ∧ e.vp < arOf c e.method)
     (hfirst : ∀ k, k < c.vtbl.length → c.slots.first.get k < stopBit) :
     ∃ d, decode (encode c) (msOf c) cells = .ok d ∧ d.toInstalled.data = inst.data ∧
       d.toInstalled.vptr = inst.vptr ∧ d.toInstalled.ss = inst.ss :=
-  decode_encode_eq_install c inst hinst cells hcells hnd hlen har hstr htab hgood hfirst
+  decode_encode_eq_install c inst hinst cells hcells hnd hlen har hstr hnx htab hgood hfirst
 
 /-- calls read the installed image through `data` and `ss` only: two images that agree there resolve
     every call alike -/
